@@ -1,13 +1,17 @@
 """C02 - Metropolis-type kernels accept with exactly the Metropolis-Hastings probability.
 
 Spec: specs/MHKernel.tla (+ TraceMHKernel.tla for recorded executions).
-Spec -> code: TLC explores every behaviour (Propose / Decide / Tune / SaveLoad) of the bounded lattice instance for the
+Spec -> code: TLC explores every behaviour (Propose / Decide / Tune / SaveLoad / Abort) of the bounded lattice instance for the
 kernels RW, CW, PCN, MALA in both interfaces, checks RatioIsMH / DetailedBalance / CacheCoherent / NoNonFiniteAccept /
 RejectKeepsState on every state and emits each behaviour with the exact proposal noise, the exact rational log-ratio
 and the state predicted after every action.  harness/cuqiverif/mhkernel_real.py realises the tables as
 UserDefinedDistribution / Posterior objects, scripts the proposal noise and a uniform just below / above exp(r) and
 drives the real samplers one transition at a time (step(); single_update(x, cached...)), fresh, after a real warm-up
 tuning step and after get_state -> fresh sampler -> set_state.
+Aborted transitions (action Abort, MHKernel.abort.<tier>.cfg): the table target raises at the k-th evaluation of a transition
+(every k the spec enumerates: RW/PCN 1, CW 1..d, MALA log-density / drift); afterwards the cached evaluations must equal a
+fresh evaluation at the sampler's current point by an un-instrumented target, the point must be one of the kernel states the
+spec allows (partial sweep / sweep start) and the following transitions must decide with the spec's ratio.
 Code -> spec: real runs of the Metropolis-type samplers under the recorder log the boolean facets cache_ok /
 finite_ok / moved / acc of every transition; TLC validates them against TraceMHKernel.tla.
 """
@@ -18,15 +22,21 @@ META = {
              "and NaN/-inf-holed target tables; RW, CW, PCN, MALA x both interfaces; scalar, per-component and re-tuned scales; "
              "state reload) that the log-ratio computed from the caches is the Metropolis-Hastings log-ratio of the proposal "
              "mechanism, detailed balance, cache coherence, reject-keeps-state and that non-finite proposals are never accepted "
-             "(named deviations ProposalUsesRawPriorDraw / AcceptsNaN and three mutations must violate them); every emitted "
+             "(named deviations ProposalUsesRawPriorDraw / AcceptsNaN and four mutations must violate them), also after a "
+             "transition that aborts at its k-th target evaluation (action Abort; deviation AbortHalfUpdated must violate "
+             "CacheCoherent); every emitted "
              "behaviour is replayed on the real samplers with scripted noise and a uniform 1e-6 below / above exp(r), comparing "
-             "proposal, decision, next point and caches after every action; recorded real runs are validated by TLC against "
-             "TraceMHKernel."),
+             "proposal, decision, next point and caches after every action; in the Abort behaviours the table target raises at "
+             "the evaluation the spec names (every kernel, both interfaces, + experimental ULA), then cache = fresh evaluation "
+             "at the current point, point in the spec's allowed set, following transitions as specified (stateless interface "
+             "also sample(2) after an aborted sample(2) on one sampler object); recorded real runs are validated by TLC "
+             "against TraceMHKernel."),
     "note": ("Targets are tables on a finite lattice (the ratio identities do not depend on the table values); a computed ratio "
              "must deviate by more than 1e-6 relative to flip a scripted decision. Legacy CWMH is driven with a copy of x "
              "(its in-place write is finding C14-F1). CWMH of either interface cannot run in dimension 1 (observation). "
              "Warm-up of the stateful interface is one scripted warmup(1) step (real tune()), of the stateless interface a "
-             "real sample_adapt(10); the scale is then reset to a lattice value through the public attribute."),
+             "real sample_adapt(10); the scale is then reset to a lattice value through the public attribute. Whether an "
+             "exception of the target reaches the caller is an observation; only the state / decisions afterwards are judged."),
     "technique": "TLA+ spec (MHKernel) model-checked with TLC; TLC-generated behaviours replayed into the samplers with scripted randomness; recorded traces validated by TLC",
 }
 
@@ -42,6 +52,7 @@ DEVIATIONS = (  # cfg, invariant that must be violated
     ("MHKernel.mut_stalegrad.deviation.cfg", "CacheCoherent"),
     ("MHKernel.mut_loaddrops.deviation.cfg", "CacheCoherent"),
     ("MHKernel.mut_rejectmoves.deviation.cfg", "RejectKeepsState"),
+    ("MHKernel.abort_halfupdated.deviation.cfg", "CacheCoherent"),
 )
 
 
@@ -184,6 +195,7 @@ TRACE_CFG = """CONSTANTS
   MaxT2 = 1
   MaxTunes = 0
   MaxLoads = 0
+  MaxAborts = 0
   AllStarts = FALSE
   Hist = FALSE
   Emit = FALSE
@@ -392,6 +404,108 @@ def replay_facet(ctx, roots, behs, limit):
     return chosen
 
 
+# ----------------------------------------------------------------------------------------------------------------
+# spec -> code : aborted transitions (action Abort)
+# ----------------------------------------------------------------------------------------------------------------
+ABORT_EVALS = {"RW": (1,), "PCN": (1,), "CW": (1, 2), "MALA": (1, 2)}     # k of MHKernel!NEvals on the bounded instance
+
+
+def _abort_entry(beh):
+    return next(e for e in beh["prog"] if e["a"] == "x")
+
+
+def _abort_stratum(beh):
+    from cuqiverif.mhkernel_real import split_transitions
+    c, a = beh["cfg"], _abort_entry(beh)
+    shape = "".join(kind for kind, _ in split_transitions(beh["prog"]))
+    return (c["k"], c["iface"], c["d"], c["tgt"], c["sc"], c["m"], shape, a["k"], a["mode"], len(a["alt"]))
+
+
+def select_abort(behs, rnd, limit):
+    """every stratum (configuration x shape of the behaviour x evaluation k x mode) at least once, then a seeded sample"""
+    if limit is None or len(behs) <= limit:
+        return list(behs)
+    order = list(range(len(behs)))
+    rnd.shuffle(order)
+    seen, pick, rest = set(), [], []
+    for i in order:
+        q = _abort_stratum(behs[i])
+        if q not in seen:
+            seen.add(q)
+            pick.append(i)
+        else:
+            rest.append(i)
+    if len(pick) < limit:
+        pick += rest[:limit - len(pick)]
+    return [behs[i] for i in sorted(pick)]
+
+
+def abort_facet(ctx, roots, behs, limit):
+    """replay of the behaviours with an aborted transition: exception injection into the table target"""
+    from cuqiverif import mhkernel_real as R
+    from cuqiverif.core import MachineryError
+    rnd = random.Random(ctx.seed + 77)
+    chosen = select_abort(behs, rnd, limit)
+    stats = R.new_abort_stats()
+    ntrans = 0
+    t0 = time.time()
+    for n, b in enumerate(chosen):
+        c, a = b["cfg"], _abort_entry(b)
+        root = roots[_cfgkey(c)]
+        first = b["prog"][0]["a"] == "x" or (c["k"] == "CW" and R.split_transitions(b["prog"])[0][0] == "A")
+        reals = list(R.realisations(c))
+        if c["k"] == "MALA" and c["iface"] == "exp" and first:
+            reals.append("ula")                        # the unadjusted Langevin kernel shares the cached state: coherence only
+        for real in reals:
+            if real != "user" and n % 3:
+                continue
+            ctx.case(("abort", c["k"], c["iface"], c["d"], c["tgt"], c["sc"], c["m"], real,
+                      hashlib.sha1(_cfgkey(b["prog"]).encode()).hexdigest()[:12]), facet="abort")
+            ntrans += R.run_behaviour(ctx, b, root["rows"], root["sv"], root, real=real, salt=n, stats=stats)
+            ctx.traces += 1
+        if c["iface"] == "leg" and first and n % 2 == 0:
+            # the stateless interface at the level of the sampler object: sample(2) aborted, sample(2) again
+            done = R.run_abort_sample(ctx, b, root["rows"], root["sv"], root, salt=n, stats=stats)
+            if done:
+                ctx.case(("abort_sample", c["k"], c["d"], c["tgt"], c["sc"], c["m"],
+                          hashlib.sha1(_cfgkey(b["prog"]).encode()).hexdigest()[:12]), facet="abort")
+                ntrans += done
+    # vacuity: every kernel x interface x evaluation k was really aborted and really continued
+    for kern, ks in ABORT_EVALS.items():
+        for iface in ("exp", "leg"):
+            for kk in ks:
+                key = "%s/%s/k=%d" % (kern, iface, kk)
+                if not stats["realised"].get(key):
+                    raise MachineryError("abort facet vacuous: no transition of %s aborted at evaluation %d (%r)" % (key, kk, stats["realised"]))
+                if not any(q.startswith(key + "/") for q in stats["continued"]):
+                    raise MachineryError("abort facet vacuous: no behaviour continued after an abort of %s (%r)" % (key, stats["continued"]))
+    if not stats["unadjusted"] or not stats["sample_level"]:
+        raise MachineryError("abort facet vacuous: ULA / sample()-level realisations did not run (%r)" % stats)
+    ctx.observe("abort", {"behaviours_emitted": len(behs), "behaviours_replayed": len(chosen), "real_transitions": ntrans,
+                          "aborted_transitions": stats["realised"], "continued_after_abort": stats["continued"],
+                          "real_state_is_the_other_allowed_state": stats["other_branch"],
+                          "modelled_evaluation_not_made": stats["not_reached"], "unadjusted_langevin": stats["unadjusted"],
+                          "sample_after_aborted_sample": stats["sample_level"], "wall_s": round(time.time() - t0, 1)})
+    # an exception that reaches the caller is acceptable; swallowing it is neither required nor forbidden
+    ctx.observe("exception_of_the_target_during_a_transition", stats["outcome"])
+    # binding self-test: a cache made stale after the abort must be reported
+    tested = 0
+    for kern in ("RW", "CW", "PCN", "MALA"):
+        b = next((q for q in chosen if q["cfg"]["k"] == kern and q["cfg"]["iface"] == "exp"), None)
+        if b is None:
+            continue
+        col = _Collector()
+        root = roots[_cfgkey(b["cfg"])]
+        R.run_behaviour(col, b, root["rows"], root["sv"], root, salt=0, corrupt=True)
+        if not any(h.endswith("/cache_coherent") for h in col.hits):
+            raise MachineryError("binding self-test: a stale cache after an aborted transition was not reported (%s)" % _cfgkey(b["cfg"]))
+        tested += 1
+    if not tested:
+        raise MachineryError("binding self-test of the abort facet impossible")
+    ctx.observe("binding_selftest_abort", "%d aborted transitions replayed with the cache made stale afterwards: cache_coherent reported each time" % tested)
+    return chosen
+
+
 def probes(ctx):
     """things neither required nor forbidden by the property: recorded as observations"""
     import cuqi
@@ -434,6 +548,7 @@ def run(ctx):
         jobs["main"] = pool.submit(_tlc_retry, ctx, "MHKernel", cfg="MHKernel.%s.cfg" % tier, workers=8, timeout=3000)
         jobs["deep"] = pool.submit(_tlc_retry, ctx, "MHKernel", cfg="MHKernel.deep.%s.cfg" % tier, workers=8, timeout=3000)
         jobs["m0"] = pool.submit(_tlc_retry, ctx, "MHKernel", cfg="MHKernel.rawprior_m0.cfg", workers=2, timeout=2400)
+        jobs["abort"] = pool.submit(_tlc_retry, ctx, "MHKernel", cfg="MHKernel.abort.%s.cfg" % tier, workers=8, timeout=3000)
         for cfg, inv in DEVIATIONS:
             jobs[cfg] = pool.submit(_tlc_retry, ctx, "MHKernel", cfg=cfg, workers=2, expect_violation=True, timeout=2400)
         if tier == "thorough":
@@ -460,12 +575,14 @@ def run(ctx):
         ctx.model_must_hold(res["main"], "MHKernel")
         ctx.model_must_hold(res["deep"], "MHKernel(deep)")
         ctx.model_must_hold(res["m0"], "MHKernel(raw prior draw, m=0)")
+        ctx.model_must_hold(res["abort"], "MHKernel(abort)")
         for cfg, inv in DEVIATIONS:
             r = res[cfg]
             if r.ok or r.violated != inv:
                 raise MachineryError("deviation %s did not violate %s (got %r): invariant is vacuous" % (cfg, inv, r.violated))
         cases = list(res["main"].cases) + (list(res["sim"].cases) if "sim" in res else [])
-        roots = {_cfgkey(c["cfg"]): c for c in cases if c["kind"] == "root"}
+        roots = {_cfgkey(c["cfg"]): c for c in list(res["abort"].cases) + cases if c["kind"] == "root"}
+        abehs = [c for c in res["abort"].cases if c["kind"] == "beh"]
         seenb, behs = set(), []
         for c in cases:
             if c["kind"] == "beh":
@@ -477,6 +594,13 @@ def run(ctx):
         for need in ("p", "d/Below", "d/Above", "d/Any", "t", "s"):
             if not acts.get(need):
                 raise MachineryError("vacuous model: no emitted behaviour contains action %s (%r)" % (need, acts))
+        aacts = _behaviour_stats(abehs)
+        amodes = {(b["cfg"]["k"], e["k"], e["mode"], len(e["alt"])) for b in abehs for e in b["prog"] if e["a"] == "x"}
+        if not aacts.get("x") or any(sum(1 for e in b["prog"] if e["a"] == "x") != 1 for b in abehs):
+            raise MachineryError("vacuous model: the abort configuration emitted no behaviour with exactly one Abort (%r)" % aacts)
+        if ("CW", 2, "keep", 2) not in amodes or ("CW", 2, "rollback", 2) not in amodes:
+            raise MachineryError("vacuous model: no aborted sweep with an accepted component in both modes (%r)" % sorted(amodes))
+        acts["x (abort cfg)"] = aacts["x"]
         ctx.observe("emitted_actions", acts)
         ctx.observe("named_deviations", {cfg: inv for cfg, inv in DEVIATIONS})
         if not behs or not roots:
@@ -484,6 +608,10 @@ def run(ctx):
         # 2. spec -> code
         limit = None if tier == "quick" else 150000
         chosen = replay_facet(ctx, roots, behs, limit)
+        alimit = None if tier == "quick" else 40000
+        achosen = abort_facet(ctx, roots, abehs, alimit)
+        ab = next((b for b in achosen if b["cfg"]["k"] == "CW" and _abort_entry(b)["mode"] == "rollback"), achosen[0])
+        ctx.sample({"abort_behaviour": {"cfg": ab["cfg"], "prog": ab["prog"][:4]}})
         mid = chosen[len(chosen) // 2]
         ctx.sample({"behaviour": {"cfg": mid["cfg"], "prog": mid["prog"][:4]}})
         pcn = next((b for b in chosen if b["cfg"]["k"] == "PCN" and b["cfg"]["m"] == 1), None)
@@ -504,12 +632,17 @@ def run(ctx):
     ctx.rule = ("behaviour = one terminal path of the bounded MHKernel instance (configuration x initial point x sequence of "
                 "Propose/Decide/Tune/SaveLoad) emitted by TLC with exact noise, ratio and predicted states; replayed per realisation "
                 "(quick: all; thorough: edge cover + seeded sample of %d, + simulated deep behaviours); distinct = behaviour x "
-                "realisation, non-trivial = at least one proposal differs from the point it is made from; plus recorded traces "
-                "(non-trivial = contains a judged transition)" % (limit or len(behs)))
-    ctx.exhaustive = limit is None or len(behs) <= limit      # every behaviour of the bounded emission instance was replayed
+                "realisation, non-trivial = at least one proposal differs from the point it is made from; plus the behaviours with "
+                "one aborted transition of MHKernel.abort.<tier>.cfg (quick: all; thorough: stratum cover + seeded sample of %d; "
+                "target raising at the evaluation the spec names); plus recorded traces (non-trivial = contains a judged "
+                "transition)" % (limit or len(behs), alimit or len(abehs)))
+    # every behaviour of the bounded emission instances was replayed
+    ctx.exhaustive = (limit is None or len(behs) <= limit) and (alimit is None or len(abehs) <= alimit)
     ctx.assumptions += ["acceptance thresholds are placed 1e-6 (relative) below / above exp(r): a ratio error below 1e-6 is not detected",
                         "table targets on finite lattices; off-lattice evaluations use a smooth finite fallback",
-                        "trace facets compare caches with a fresh evaluation of the sampler's own target (rtol 1e-10)"]
+                        "trace facets compare caches with a fresh evaluation of the sampler's own target (rtol 1e-10)",
+                        "aborted transitions: the failure is an exception raised by the target's log-density / drift / forward map "
+                        "at the evaluation the spec names, once; failures of other calls (proposal, random stream) are not injected"]
 
 
 def replay(ctx, case):
@@ -519,6 +652,9 @@ def replay(ctx, case):
     kind = case.get("kind")
     if kind == "beh":
         R.run_behaviour(ctx, case, case["rows"], case["sv0"], case["root"], real=case.get("real", "user"), salt=case.get("salt", 0))
+        return
+    if kind == "abort_sample":
+        R.run_abort_sample(ctx, case, case["rows"], case["sv0"], case["root"], real=case.get("real", "user"), salt=case.get("salt", 0))
         return
     if kind == "trace":
         from cuqiverif import trace
